@@ -192,7 +192,7 @@ pub fn run_c07(ctx: &mut Ctx) {
         "connections of 1..4 requests x 3 roles x keep-connection on/off x bodies (empty .. multi-record) x management / unknown-type / foreign-id noise x handler family (read all / part / nothing via read or fill_buf+consume; 0..4 chunks to stdout/stderr with flushes; every ExitStatus kind, handler I/O errors) \
          x transports answering reads and writes with 1..n bytes or Pending; the client releases request i+1 only after EndRequest i reached it. Oracle: independent record decoder on the byte log + handler invocation log. Non-trivial: all; distinct by case");
     let mut rng = ctx.rng.fork();
-    for ci in 0..ctx.n(300, 6000) {
+    for ci in 0..ctx.n(1500, 8000) {
         let k = 1 + rng.usize_below(4);
         let mc = 1 + rng.usize_below(100);
         let b = *rng.pick(&[64usize, 128, 256, 1024, 8192]);
@@ -280,7 +280,7 @@ pub fn run_c08(ctx: &mut Ctx) {
             }
         }
     }
-    for ci in 0..ctx.n(300, 6000) {
+    for ci in 0..ctx.n(1500, 8000) {
         let k = 1 + rng.usize_below(2);
         let mc = 1 + rng.usize_below(100);
         let b = *rng.pick(&[128usize, 256, 8192]);
@@ -357,7 +357,7 @@ pub fn run_c11(ctx: &mut Ctx) {
         "an AbortRequest (body 0..64 bytes, padding 0..255) for the request in progress placed after every record position of the preamble and of each input stream, or for a foreign id; handlers that read to the end / read a little / buffered-read / do not read / are already past end-of-stream, propagating or ignoring the read error and returning their own status; \
          followed by 0..2 further requests on the same connection; C07 transport patterns. Oracle: record decoder on the byte log + handler log. Non-trivial: all; distinct by case");
     let mut rng = ctx.rng.fork();
-    for ci in 0..ctx.n(400, 8000) {
+    for ci in 0..ctx.n(2000, 10000) {
         let k = 1 + rng.usize_below(3);
         let mc = 1 + rng.usize_below(50);
         let b = *rng.pick(&[128usize, 256, 8192]);
@@ -545,7 +545,7 @@ pub fn run_c12(ctx: &mut Ctx) {
 pub fn c14_conn(ctx: &mut Ctx, log: &mut Log, im: &mut Impl, or: &mut Oracle) {
     let mut rng = ctx.rng.fork();
     let thorough = ctx.tier_thorough || ctx.widen;
-    for ci in 0..ctx.n(30, 400) {
+    for ci in 0..ctx.n(100, 600) {
         let k = 1 + rng.usize_below(3);
         let mc = 1 + rng.usize_below(50);
         let b = *rng.pick(&[128usize, 1024]);
